@@ -29,6 +29,7 @@ def evolution_job(r, cluster, callee_cluster, kind, cv=None):
     callee = vprogs.new_fn("m2", "mem", [], cluster=callee_cluster, explicit=cv)
     p0 = {"nodes": [caller, callee]}
     steps = [{"do": "proc", "hashseed": "0"}, {"do": "call", "name": "m1"}, {"do": "probe", "name": "m1"}]
+    direction = ""
     if kind == "edit":
         n = copy.deepcopy(callee)
         n["slots"][r.choice(vprogs.SLOTS)] += 1
@@ -39,10 +40,32 @@ def evolution_job(r, cluster, callee_cluster, kind, cv=None):
         steps.append({"do": "drop", "name": "m2"})
     elif kind == "recluster":
         n = copy.deepcopy(callee)
-        n["cluster"] = "vy" if callee_cluster != "vy" else "vz"
+        # to another named cluster, or between a named and the default cluster
+        n["cluster"] = r.choice([c for c in ("vy", "vz", None) if c != callee_cluster])
         steps.append({"do": "set", "node": n})
+        direction = "%s->%s" % ("default" if callee_cluster is None else "named", "default" if n["cluster"] is None else "named")
     steps += [{"do": "proc", "hashseed": "0"}, {"do": "call", "name": "m1"}, {"do": "probe", "name": "m1"}]
-    return {"prog": p0, "steps": steps, "clusters": ["vy"], "kind": kind, "cluster": cluster, "callee_cluster": callee_cluster, "cv": cv}
+    return {"prog": p0, "steps": steps, "clusters": ["vy"], "kind": kind, "cluster": cluster, "callee_cluster": callee_cluster, "cv": cv,
+            "direction": direction if kind == "recluster" else ""}
+
+
+def evolution_job_argfn(r, cluster, kind):
+    """the vanishing version is recorded as an ARGUMENT VALUE (a memento function handed to the callee), not as a callee"""
+    caller = vprogs.new_fn("m1", "mem", [{"to": "m2", "form": "bare", "pass": "m3"}], explicit="1", cluster=cluster)
+    mid = dict(vprogs.new_fn("m2", "mem", [], explicit="1", cluster=cluster), fnarg=True)
+    leaf = vprogs.new_fn("m3", "mem", [], cluster=cluster)
+    p0 = {"nodes": [caller, mid, leaf]}
+    also = ["m2"]
+    steps = [{"do": "proc", "hashseed": "0"}, {"do": "call", "name": "m1"}, {"do": "probe", "name": "m1", "also": also}]
+    if kind == "edit":
+        n = copy.deepcopy(leaf)
+        n["slots"][r.choice(vprogs.SLOTS)] += 1
+        steps.append({"do": "set", "node": n})
+    else:
+        steps.append({"do": "drop", "name": "m3"})
+    steps += [{"do": "proc", "hashseed": "0"}, {"do": "call", "name": "m1"}, {"do": "probe", "name": "m1", "also": also}]
+    return {"prog": p0, "steps": steps, "clusters": ["vy"], "kind": kind, "cluster": cluster, "callee_cluster": cluster, "cv": None,
+            "direction": "", "argfn": True}
 
 
 def evolve_events(job, t):
@@ -56,15 +79,18 @@ def evolve_events(job, t):
                  "exc": "history incomplete: " + "; ".join(str(e.get("exc")) for e in t["ev"] if e.get("exc"))[:200]}]
     c0, c1, p0, p1 = calls[0], calls[1], probes[0], probes[1]
     exc = "; ".join(x for x in [c0.get("exc", ""), p0.get("exc", "")] if x)
-    out.append({"op": "Evolve", "kind": "baseline", "served": c0.get("ran") == ["m1", "m2"], "same": bool(c0.get("same")),
+    ran0 = ["m1", "m2", "m3"] if job.get("argfn") else ["m1", "m2"]
+    out.append({"op": "Evolve", "kind": "baseline", "served": c0.get("ran") == ran0, "same": bool(c0.get("same")),
                 "memento": bool(p0.get("memento")), "extok": all(not x[1] for x in p0.get("invs", [])) and len(p0.get("invs", [])) == 1,
                 "listok": p0.get("nlisted") == 1 and len(p0.get("functions", [])) >= 1, "exc": exc})
     exc = "; ".join(x for x in [c1.get("exc", ""), p1.get("exc", "")] + [o["exc"] for o in others] if x)
-    want_ext = job["kind"] in ("edit", "remove")
+    want_ext = job["kind"] in ("edit", "remove") and not job.get("argfn")     # (argfn: the callee m2 itself is unchanged)
+    if job.get("argfn"):
+        p1["nlisted"] = p1.get("nlisted") if p1.get("others") == p0.get("others") else -1
     out.append({"op": "Evolve", "kind": job["kind"], "served": c1.get("ran") == [], "same": c1.get("got") == c0.get("got") and "got" in c1,
                 "memento": bool(p1.get("memento")),
                 "extok": len(p1.get("invs", [])) == 1 and (not want_ext or all(x[1] for x in p1["invs"]))
-                and (not want_ext or [x[0] for x in p1["invs"]] == [x[0] for x in p0.get("invs", [])]),   # still names what was called
+                and [x[0] for x in p1["invs"]] == [x[0] for x in p0.get("invs", [])],   # still names what was called
                 "listok": p1.get("nlisted") == 1, "exc": exc})
     return out
 
@@ -99,11 +125,14 @@ def run(prop, tier):
                 for _ in range(1 if quick else 8):
                     evjobs.append(evolution_job(r, cluster, cc, kind))
                     evjobs.append(evolution_job(r, cluster, cc, kind, cv=r.choice(["a::b", "1:2", "#x", "1.link", "x::y:z#w", "7"])))
+                    if kind in ("edit", "remove") and cc == cluster:
+                        evjobs.append(evolution_job_argfn(r, cluster, kind))
         evt = common.run_jobs("ver_worker.py", evjobs, wd, timeout=2400)
         for j, t in zip(evjobs, evt):
             evs = evolve_events(j, t)
             for e in evs:
-                e["case"] = {"kind": j["kind"], "cluster": j["cluster"], "callee_cluster": j["callee_cluster"], "version": j.get("cv") or ""}
+                e["case"] = {"kind": j["kind"], "cluster": j["cluster"], "callee_cluster": j["callee_cluster"], "version": j.get("cv") or "",
+                             "direction": j.get("direction", "")}
             traces.append(evs)
         keep = ("op", "name", "cluster", "module", "function", "hasver", "version", "exc", "by", "ok", "kind", "served", "same", "memento",
                 "extok", "listok")
@@ -128,7 +157,7 @@ def run(prop, tier):
             v = case.get("version", "")
             facts = {"property": prop, "op": e.get("op"), "by": e.get("by", ""), "why": sorted(rj["why"]), "exc": (e.get("exc") or "")[:90],
                      "default_cluster": case.get("cluster") is None, "version_has_colon": ":" in v, "version_has_hash": "#" in v,
-                     "kind": e.get("kind", "")}
+                     "kind": e.get("kind", ""), "recluster_direction": case.get("direction", "")}
             rep.violation(facts, {"case": case, "qualified_name": e.get("qn"), "event": {k: v_ for k, v_ in e.items() if k != "case"},
                                   "failed_clauses": sorted(rj["why"])})
         rep.assumptions += ["admissible names: cluster/module/function non-empty without ':' and '#'; versions over the stated alphabet"]
